@@ -39,6 +39,14 @@ def finding_for(kf, prop, item):
     return None
 
 
+BX_WHY = {
+    'bx:sync': 'no verifier in reach (proc-macro generated code); bounded drip-feed check of the real code',
+    'bx:dsp': 'floating-point blocks: no verifier here has a float theory and most of these bodies are iterator/FFT code; bounded '
+              'differential check of the real code (a roomy run and an adversarial drip-fed run of the same input must give '
+              'bit-identical output; one-to-one blocks must deliver each tag once at the same index)',
+}
+
+
 def run_units(units, tier):
     results = {}
     kani_units = []
@@ -116,7 +124,7 @@ def main():
         r = results[uname]
         if uname.startswith('bx:'):
             # BOUNDED-ONLY stand-in for code no verifier here can take (derive-generated work()): never counted as proved
-            bounded.append({'unit': uname, 'bounded': True, 'why': 'no verifier in reach (proc-macro generated code); bounded drip-feed check of the real code',
+            bounded.append({'unit': uname, 'bounded': True, 'why': BX_WHY.get(uname, 'no verifier in reach; bounded check of the real code'),
                             'stats': r.stats, 'status': r.status, 'cmd': r.cmd})
             cmds.append(r.cmd)
             if r.status == 'undecided':
